@@ -683,8 +683,48 @@ func c05special(g *vgen, depth int, reg bool) (*Val, func() interface{}) {
 	}
 }
 
+type rvHolder struct {
+	id    RegInt
+	name  RegStr
+	owner string
+	n     int
+	note  redact.RedactableString
+	nb    redact.RedactableBytes
+	st    RegSt
+	Exp   RegInt
+}
+
+// reflect.Value operands, also ones that cannot be converted back to interface{} (taken from
+// unexported fields): classified by their static type - registered types, redactables - exactly
+// like the value itself passed directly
+func q05reflectValues(q *qw, rng *prng) {
+	h := rvHolder{id: 4711, name: "n‹m", owner: "alice\n", n: -3, note: "seen ‹bob›", nb: redact.RedactableBytes("x ‹y›"), st: RegSt{"in", 7}, Exp: 12}
+	direct := []interface{}{h.id, h.name, h.owner, h.n, h.note, h.nb, h.st, h.Exp}
+	for _, reg := range []bool{true, false} {
+		setRegistry(reg)
+		rv := reflect.ValueOf(h)
+		for i := 0; i < rv.NumField(); i++ {
+			for _, d := range []string{"%v", "%d", "%s", "%06d", "%8v|", "%-8s|", "%x", "%+v", "%q", "%.2s", "[% x]"} {
+				if !rng.coin(2, 3) {
+					continue
+				}
+				var got, want string
+				p1, _ := try(func() { got = string(redact.Sprintf(d, rv.Field(i))) })
+				p2, _ := try(func() { want = string(redact.Sprintf(d, direct[i])) })
+				info := fmt.Sprintf("directive %q field %s (%s) registry=%v", d, rv.Type().Field(i).Name, rv.Type().Field(i).Type, reg)
+				q.truth("C05", "reflect.Value operand: panics like the direct operand", p1 == p2, info)
+				if !p1 && !p2 {
+					q.eq("C05", "a reflect.Value operand is classified like the value it holds", lit(got), lit(want), info)
+				}
+			}
+		}
+	}
+	setRegistry(false)
+}
+
 func genQ05(w *bufio.Writer, rng *prng, n int, depth int) {
 	q := &qw{w}
+	q05reflectValues(q, rng)
 	for i := 0; i < n; i++ {
 		g := &vgen{rng: rng, hostile: true, validUtf8: true}
 		c := &pcase{reg: rng.coin(1, 2), entry: "sprintf"}
@@ -891,6 +931,29 @@ func genQ06(w *bufio.Writer, rng *prng, n int, depth int) {
 			}
 		}
 		fmt.Fprintln(w, runPCase(c))
+		// the same x wrapped again inside a container of the operand - an exported interface-typed
+		// struct field, a slice element: the wrapper reached by reflection prints x as fmt does
+		// (through x's own formatting methods)
+		if fmtCompatVal(x) && utf8.ValidString(d) && (!c.useHook || outer == "unsafe") && i%2 == 0 {
+			inner := rng.pick([]string{"safe", "unsafe"})
+			// the reference is fmt on the same holder, wrapper included: fmt prints a wrapper through
+			// its Format method, which re-prints the wrapped value under the active directive
+			var holder *Val
+			if rng.coin(1, 2) {
+				holder = &Val{K: "st", GoT: "St2", Elems: []*Val{{K: inner, Elems: []*Val{x}}, {K: "nil"}}}
+			} else {
+				holder = &Val{K: "sl", GoT: "[]interface{}", Elems: []*Val{{K: "i", GoT: "int", I: 1}, {K: inner, Elems: []*Val{x}}}}
+			}
+			ref := func() interface{} { return holder.Build() }
+			c2 := &pcase{reg: c.reg, entry: "sprintf", useHook: c.useHook, hook: c.hook, format: d, args: []*Val{{K: outer, Elems: []*Val{holder}}}}
+			var only, fout string
+			p2, _ := try(func() { only = string(redact.Sprintf(d, prepCase(c2)...)) })
+			fp, _ := try(func() { prepCase(c2); fout = fmt.Sprintf(d, ref()) })
+			if !p2 && !fp {
+				q.eq("C06", "characters of Safe/Unsafe(x) are those fmt prints for x (x holding a wrapped value in a struct field or slice element)", fn("strip", lit(only)), fn("escm", lit(fout)), caseInfo(c2))
+			}
+			fmt.Fprintln(w, runPCase(c2))
+		}
 	}
 }
 
@@ -918,6 +981,11 @@ func libRedactable(g *vgen, depth int) string {
 	return s
 }
 
+type rsHolder struct {
+	R redact.RedactableString
+	r redact.RedactableString
+}
+
 func genQ08(w *bufio.Writer, rng *prng, n int, depth int) {
 	q := &qw{w}
 	setRegistry(false)
@@ -933,6 +1001,17 @@ func genQ08(w *bufio.Writer, rng *prng, n int, depth int) {
 		if len(star) == 0 && !strings.ContainsAny(d[len(d)-1:], "Tp") {
 			q.eq("C08", "Sprintf("+d+", r) = r", lit(string(redact.Sprintf(d, R1))), lit(r1), info)
 			q.eq("C08", "Sprintf("+d+", r.ToBytes()) = r", lit(string(redact.Sprintf(d, R1.ToBytes()))), lit(r1), info)
+		}
+		if len(star) == 0 && !strings.ContainsAny(d[len(d)-1:], "Tpw") && !strings.Contains(d, "#") {
+			// nested: width, precision, flags and verb of the directive do not touch a redactable element
+			q.eq("C08", "Sprintf("+d+", []RedactableString{r1,r2})", lit(string(redact.Sprintf(d, []redact.RedactableString{R1, R2}))), lit("["+r1+" "+r2+"]"), info)
+			q.eq("C08", "Sprintf("+d+", []interface{}{r1.ToBytes(),r2})", lit(string(redact.Sprintf(d, []interface{}{R1.ToBytes(), R2}))), lit("["+r1+" "+r2+"]"), info)
+			q.eq("C08", "Sprintf("+d+", [1]RedactableBytes{r1})", lit(string(redact.Sprintf(d, [1]redact.RedactableBytes{R1.ToBytes()}))), lit("["+r1+"]"), info)
+			if !strings.Contains(d, "+") {
+				q.eq("C08", "Sprintf("+d+", struct{A: r1, b: r2})", lit(string(redact.Sprintf(d, St2{A: R1, b: R2.ToBytes()}))), lit("{"+r1+" "+r2+"}"), info)
+				q.eq("C08", "Sprintf("+d+", &struct{A: r1})", lit(string(redact.Sprintf(d, &rsHolder{R1, R2}))), lit("&{"+r1+" "+r2+"}"), info)
+			}
+			q.eq("C08", "Sprintf("+d+", map[RedactableString]RedactableString)", lit(string(redact.Sprintf(d, map[redact.RedactableString]redact.RedactableString{R1: R2}))), lit("map["+r1+":"+r2+"]"), info)
 		}
 		q.eq("C08", "Sprint(r) = r", lit(string(redact.Sprint(R1))), lit(r1), info)
 		a := []interface{}{g.str(), redact.Safe(g.str()), 7}
@@ -1548,7 +1627,7 @@ func genQ11(w *bufio.Writer, rng *prng, n int, depth int) {
 	}
 	// the character verbs on every rune class (surrogates, negative, above MaxRune) and integer type
 	for _, r := range runes {
-		for _, f := range []string{"%c", "[%3c]", "[%-3c]", "%q", "%#q", "%+q", "%U", "%#U", "%#.6U", "%v %c"} {
+		for _, f := range []string{"%c", "[%3c]", "[%-3c]", "%q", "%#q", "%+q", "%U", "%#U", "%#.6U", "%v %c", "%#.60U", "%#.64U", "%#.70U", "%#70.68U", "%.66U", "%#-75.3U|"} {
 			if !rng.coin(1, 2) {
 				continue
 			}
@@ -1809,6 +1888,40 @@ func genQ12(w *bufio.Writer, rng *prng, n int, depth int, baseline bool) {
 	}
 	allocs := redact.VerifPoolAllocs() - allocs0
 	q.truth("C12", "probes ran on recycled printers (pool allocations far below number of calls)", allocs*4 < int64(calls), fmt.Sprintf("allocs=%d calls=%d", allocs, calls))
+	// paddings of both kinds (zeros, blanks) from concurrent goroutines, each compared with the result
+	// computed before the goroutines started
+	{
+		padProbes := []func() string{
+			func() string { return string(redact.Sprintf("%012.3f|%-9s|%9v", 3.25, "ab", true)) },
+			func() string { return string(redact.Sprintf("%05s|%07q|%08.2e", "bob", "q", 1234.5)) },
+			func() string { return string(redact.Sprintf("%9s|%-12v|%6d", "bob", 1.5, 42)) },
+			func() string { return string(redact.Sprintf("%06t|%10x|%-10X|", true, "hi", "hi")) },
+		}
+		want := make([]string, len(padProbes))
+		for i, f := range padProbes {
+			want[i] = f()
+		}
+		var wg sync.WaitGroup
+		var mu sync.Mutex
+		badPad := ""
+		for gi := 0; gi < 16; gi++ {
+			wg.Add(1)
+			go func(gi int) {
+				defer wg.Done()
+				for it := 0; it < 2000; it++ {
+					k := (gi + it) % len(padProbes)
+					if got := padProbes[k](); got != want[k] {
+						mu.Lock()
+						badPad = fmt.Sprintf("probe %d: got %q want %q", k, got, want[k])
+						mu.Unlock()
+						return
+					}
+				}
+			}(gi)
+		}
+		wg.Wait()
+		q.truth("C12", "padded output differs under 16 concurrent goroutines", badPad == "", badPad)
+	}
 	// 16 goroutines issuing mixed calls: each compares its own probe results with the baseline
 	var wg sync.WaitGroup
 	var mu sync.Mutex
@@ -1876,7 +1989,8 @@ func (f fwd) Format(s fmt.State, verb rune) {
 
 // elements printed before a Formatter in the same container: values whose rendering switches
 // formatter flags off and on again (NaN and infinities drop '0', bad verbs clear everything ...)
-var siblings = []interface{}{math.NaN(), math.Inf(1), math.Inf(-1), float32(math.NaN()), nil, true, 5, "s", []byte("b"), (*int)(nil), 2.5, -1, uint8(3), struct{ A float64 }{math.NaN()}}
+var siblings = []interface{}{math.NaN(), math.Inf(1), math.Inf(-1), float32(math.NaN()), nil, true, 5, "s", []byte("b"), (*int)(nil), 2.5, -1, uint8(3), struct{ A float64 }{math.NaN()},
+	0, uint16(0), 0.0, "", false, complex(1, 2), []int{0, 1}, 'x', int64(0)}
 var siblingVals = []func() *Val{
 	func() *Val { return &Val{K: "f", GoT: "float64", F: math.NaN()} },
 	func() *Val { return &Val{K: "f", GoT: "float64", F: math.Inf(1)} },
@@ -1892,6 +2006,15 @@ var siblingVals = []func() *Val{
 	func() *Val { return &Val{K: "i", GoT: "int", I: -1} },
 	func() *Val { return &Val{K: "u", GoT: "uint8", U: 3} },
 	func() *Val { return &Val{K: "safe", Elems: []*Val{{K: "f", GoT: "float64", F: math.NaN()}}} },
+	func() *Val { return &Val{K: "i", GoT: "int", I: 0} },
+	func() *Val { return &Val{K: "u", GoT: "uint16", U: 0} },
+	func() *Val { return &Val{K: "f", GoT: "float64", F: 0} },
+	func() *Val { return &Val{K: "s", GoT: "string", S: ""} },
+	func() *Val { return &Val{K: "b", GoT: "bool", B: false} },
+	func() *Val {
+		return &Val{K: "sl", GoT: "[]int", Elems: []*Val{{K: "i", GoT: "int", I: 0}, {K: "i", GoT: "int", I: 1}}}
+	},
+	func() *Val { return &Val{K: "i", GoT: "int64", I: 0} },
 }
 
 func genQ14(w *bufio.Writer, rng *prng, n int, depth int) {
@@ -2040,6 +2163,23 @@ func (e *panicErr) Error() string { panic(e.s) }
 func genQ15(w *bufio.Writer, rng *prng, n int, depth int) {
 	q := &qw{w}
 	setRegistry(false)
+	setHook(nil)
+	// no operands: the format still goes through the directive parser
+	for _, f := range []string{"", "plain", "a\nb", "100%%", "%w", "%d", "%+8w", "%[1]w", "%[2]d x", "trailing %", "%!", "‹%%›", "%w %w", "%v%", "%é"} {
+		var txt, ref redact.RedactableString
+		var err error
+		p1, _ := try(func() { txt, err = redact.HelperForErrorf(f) })
+		p2, _ := try(func() { ref = redact.Sprintf(f) })
+		info := fmt.Sprintf("format %q without operands", f)
+		q.truth("C11", "HelperForErrorf panicked", !p1 && !p2, info)
+		if p1 || p2 {
+			continue
+		}
+		q.truth("C15", "returned error is not the one the property prescribes", err == nil, info)
+		q.eq("C15", "text differs from Sprintf's (with the correct %w read as %v)", lit(string(txt)), lit(string(ref)), info)
+		fe := fmt.Errorf(f)
+		q.eq("C15", "message differs from fmt.Errorf's", fn("strip", lit(string(txt))), fn("escm", lit(fe.Error())), info)
+	}
 	for i := 0; i < n; i++ {
 		useHook := rng.coin(1, 3)
 		if useHook {
